@@ -166,6 +166,8 @@ def random_options(r, integ, var=False, full=True, tscale=1.0):
         o['ri_trace.r_crit_hill'] = r.choice([3.0, 2.0, 4.0])
         o['ri_trace.peri_mode'] = r.choice(['FULL_BS', 'PARTIAL_BS', 'FULL_IAS15'])
         o['ri_trace.peri_crit_eta'] = r.choice([1.0, 0.5, 2.0])
+        if r.random() < 0.25:
+            o['ri_trace.S_peri'] = 'none'          # documented alternative: no pericentre switching
     elif integ == 'bs':
         o['ri_bs.eps_rel'] = r.choice([1e-8, 1e-10, 1e-6])
         o['ri_bs.eps_abs'] = r.choice([1e-8, 1e-10, 1e-6])
